@@ -434,6 +434,9 @@ func Eq(a, b *Term) *Term {
 	if b.IsConst() && a.S.K == KBV && b.C.BitLen() > a.Sig {
 		return TFalse
 	}
+	if a.S.K == KBV && intBacked(a) && (b.IsConst() || intBacked(b)) {
+		return Eq(BV2Nat(a), BV2Nat(b))
+	}
 	// eq(ite(c, k1, k2), k) with consts
 	if b.IsConst() && a.Op == OIte {
 		x, y := a.Args[1], a.Args[2]
@@ -478,6 +481,12 @@ func Eq(a, b *Term) *Term {
 }
 
 func Ne(a, b *Term) *Term { return Not(Eq(a, b)) }
+
+// intBacked reports whether a bit-vector is (a slice of) an integer truncated to bits; its
+// unsigned value then has a pure integer form: (n div 2^lo) mod 2^width.
+func intBacked(t *Term) bool {
+	return t.Op == OInt2BV || (t.Op == OExtract && t.Args[0].Op == OInt2BV)
+}
 
 // ---------- bit-vectors
 
@@ -788,6 +797,12 @@ func BvCmp(op Op, a, b *Term) *Term {
 			return TTrue
 		}
 	}
+	if (op == OBvULt || op == OBvULe) && ((intBacked(a) && (b.IsConst() || intBacked(b))) || (intBacked(b) && a.IsConst())) {
+		if op == OBvULt {
+			return ILt(BV2Nat(a), BV2Nat(b))
+		}
+		return ILe(BV2Nat(a), BV2Nat(b))
+	}
 	if (op == OBvULt || op == OBvULe) && b.IsConst() && a.Sig < a.S.W && b.C.BitLen() > a.Sig {
 		return TTrue
 	}
@@ -1003,6 +1018,14 @@ nofold:
 		if isZero(b) {
 			return a
 		}
+		// bv2nat(A)*2^w + bv2nat(B) with |B| == w is bv2nat(A ++ B): positional byte sums
+		// written in integer arithmetic fold back into the bit-vector they spell out
+		if r := foldPositional(a, b); r != nil {
+			return r
+		}
+		if r := foldPositional(b, a); r != nil {
+			return r
+		}
 	case OISub:
 		if isZero(b) {
 			return a
@@ -1026,6 +1049,79 @@ nofold:
 		}
 	}
 	return intern(&Term{Op: op, S: SInt, Args: []*Term{a, b}})
+}
+
+// natOf remembers, for integer terms produced by BV2Nat's rewrites, the bit-vector they stand for.
+var natOf sync.Map
+
+func bvOfNat(t *Term) *Term {
+	if t.Op == OBV2Nat {
+		return t.Args[0]
+	}
+	if b, ok := natOf.Load(t.ID); ok {
+		return b.(*Term)
+	}
+	return nil
+}
+
+// asBits matches the integer form of a bit field of n: (n div 2^lo) mod 2^width.
+func asBits(t *Term) (n *Term, lo, width int, ok bool) {
+	if t.Op != OIMod || !t.Args[1].IsConst() {
+		return nil, 0, 0, false
+	}
+	m := t.Args[1].C
+	if m.Sign() <= 0 || new(big.Int).And(m, new(big.Int).Sub(m, bigOne)).Sign() != 0 {
+		return nil, 0, 0, false
+	}
+	width = m.BitLen() - 1
+	x := t.Args[0]
+	if x.Op == OIDiv && x.Args[1].IsConst() {
+		d := x.Args[1].C
+		if d.Sign() > 0 && new(big.Int).And(d, new(big.Int).Sub(d, bigOne)).Sign() == 0 {
+			return x.Args[0], d.BitLen() - 1, width, true
+		}
+	}
+	return x, 0, width, true
+}
+
+func mkBits(n *Term, lo, width int) *Term {
+	x := n
+	if lo > 0 {
+		x = IntBin(OIDiv, n, IntConst(pow2(lo)))
+	}
+	return IntBin(OIMod, x, IntConst(pow2(width)))
+}
+
+func foldPositional(hi, lo *Term) *Term {
+	if hi.Op == OIMul {
+		x, c := hi.Args[0], hi.Args[1]
+		if x.IsConst() {
+			x, c = c, x
+		}
+		if c.IsConst() {
+			if n1, a, p, ok1 := asBits(x); ok1 {
+				if n2, b, q, ok2 := asBits(lo); ok2 && n1 == n2 && a == b+q && c.C.Cmp(pow2(q)) == 0 {
+					return mkBits(n1, b, p+q)
+				}
+			}
+		}
+	}
+	lb := bvOfNat(lo)
+	if lb == nil || hi.Op != OIMul {
+		return nil
+	}
+	x, c := hi.Args[0], hi.Args[1]
+	if x.IsConst() {
+		x, c = c, x
+	}
+	xb := bvOfNat(x)
+	if !c.IsConst() || xb == nil {
+		return nil
+	}
+	if c.C.Cmp(pow2(lb.S.W)) != 0 {
+		return nil
+	}
+	return BV2Nat(Concat(xb, lb))
 }
 
 func INeg(a *Term) *Term {
@@ -1095,7 +1191,19 @@ func BV2Nat(a *Term) *Term {
 	}
 	if a.Op == OInt2BV {
 		// the unsigned value of an integer truncated to w bits, in pure integer arithmetic
-		return IntBin(OIMod, a.Args[0], IntConst(pow2(a.S.W)))
+		r := IntBin(OIMod, a.Args[0], IntConst(pow2(a.S.W)))
+		natOf.Store(r.ID, a)
+		return r
+	}
+	if a.Op == OZExt {
+		return BV2Nat(a.Args[0])
+	}
+	if a.Op == OExtract && a.Args[0].Op == OInt2BV {
+		// bits lo..hi of an integer's two's complement form: floor(n / 2^lo) mod 2^width
+		n := a.Args[0].Args[0]
+		r := IntBin(OIMod, IntBin(OIDiv, n, IntConst(pow2(a.B))), IntConst(pow2(a.S.W)))
+		natOf.Store(r.ID, a)
+		return r
 	}
 	return intern(&Term{Op: OBV2Nat, S: SInt, Args: []*Term{a}})
 }
